@@ -1,6 +1,7 @@
 CONSTANTS
-  MaxId = 8
+  MaxId = 16
   ZeroIncBug = FALSE
+  OpenCleanupBug = FALSE
   DeadlineBug = "none"
   Want = {"C23_InOrder", "C23_NoCrossTalk", "C23_EOFComplete", "C23_Complete"}
 SPECIFICATION TSpec
